@@ -13,6 +13,35 @@ CHECKS = {
          "implementation on the same seeded folds (all kinds, lengths to 2^32, both methods, options).",
          "Trusted: Lean kernel; extract.py's expression translation; harness canonicalisation; NumPy unique/int64 casts; "
          "IEEE exactness of log2 on exact powers of two.", "DESIGN.md section 6 (C07)"),
+ "C01": ("Lean 4 invariance theorems over the real-number instance of the polymorphic geometry + differential correspondence of the Float instance on rigid-motion twins",
+         "The fingerprinter model takes geometry only through a Geo record (shell membership tests, stereo codes) built by Geo.ofCoords from the polymorphic functions of Model/Geom.lean; "
+         "Props/C01.lean proves the fingerprint is a function of those decisions and (over the real instance) that the decisions are invariant under proper rigid motions, and under all isometries when stereo is off. "
+         "Tied to the code by running the implementation and the Float instance on the same conformers and on rotated / translated / reflected twins (round-off band filtered by a 3e-14 A perturbation test and counted).",
+         "Trusted: Lean kernel; extract.py; IEEE double vs real arithmetic (the band the property excludes); SciPy pdist, NumPy arccos; RDKit coordinates.",
+         "DESIGN.md section 5 (C01)"),
+ "C02": ("Lean 4 executable specification of E3FP (own MurmurHash3, own geometry) with refinement / range / mask theorems + differential correspondence + model-produced golden corpus",
+         "Props/C02.lean: identifier range and the signed->unsigned bijection, level-0 and level-k identifier equations, duplicate removal order, mask exactness, totality. The Lean model is the "
+         "executable specification; the implementation is compared with it at every level (centre, substructure, identifier), with atom masks, over the full option product, and against a golden corpus of identifiers.",
+         "Trusted: Lean kernel; extract.py; the reading of the published algorithm in Model/Fprinter.lean; RDKit atom facts; mmh3 (compared). Known finding: bond types outside BOND_TYPES (dative) raise KeyError.",
+         "DESIGN.md section 5 (C02)"),
+ "C03": ("Lean 4 theorems on order-independence of the tie-breaks + differential correspondence on renumbered twins",
+         "Props/C03.lean: first-unique selection depends only on key multiplicities; tuple lists are sorted before hashing; duplicate removal is ordered by (identifier, centre). Tied to the code by "
+         "Chem.RenumberAtoms twins (all n! for <= 4 atoms, reversal / transpositions / random otherwise) and shuffled conformer storage order; the model (canonical atom-index tie-breaking) is compared with the "
+         "implementation on each renumbered molecule.",
+         "Trusted: Lean kernel; float summation order in the mean vector (round-off band filtered). The full relabelling-invariance theorem of the whole iteration is partial (see DESIGN).",
+         "DESIGN.md section 5 (C03)"),
+ "C04": ("Lean 4 history-irrelevance theorem on the model of the Fingerprinter object (identity-driven resets, molecule-scoped caches) + differential correspondence on run() histories",
+         "Props/C04.lean: CacheValid is an invariant of every history and a run from any state with valid caches equals a fresh fingerprinter's run (run_eq_fresh). Tied to the code by histories of 3-12 run() calls in four call forms "
+         "compared with the object model and with fresh objects; mutable defaults inspected; thorough tier samples hash seeds, threads, worker processes.",
+         "Trusted: Lean kernel; partial by nature: thread/process interleavings are sampled, RDKit/NumPy thread safety is not modelled.",
+         "DESIGN.md section 5 (C04)"),
+ "C12": ("Lean 4 theorems on the iteration (labels, truncation, termination) + differential correspondence of long vs limited runs",
+         "Props/C12.lean on the discrete fingerprinter model: the label is the requested level; (growing) nesting, truncation and convergence theorems. Tied to the code by one run to L=14 per conformer queried at every level "
+         "against separate runs limited to each k and a level -1 run.",
+         "Trusted: Lean kernel; extract.py; harness.", "DESIGN.md section 7 (C12)"),
+ "C18": ("Lean 4 frame theorems (coordinates of non-retained atoms are never read; hydrogens never retained) + differential correspondence on displaced / deleted atoms",
+         "Props/C18.lean: retained atoms are heavy (and bonded under exclusion); Geo.ofCoords is only evaluated at retained atoms. Tied to the code by displacing hydrogens and floating atoms, deleting floating atoms, and checking floating atoms contribute when exclusion is off.",
+         "Trusted: Lean kernel; RDKit invariants under atom deletion (assumed, exercised).", "DESIGN.md section 7 (C18)"),
  "C05": ("Lean 4 model of the CSR+names+props database with refinement theorems to a list of rows + differential correspondence on histories",
          "Machine-checked theorems (Props/C05.lean) over the database model (matrix rows, names, separately maintained name index, property "
          "columns): the invariant holds over every history, each operation's abstract effect is the list-of-rows effect, reads return no new state. "
